@@ -1566,12 +1566,16 @@ def diag_matrix(
                 row.append(vector._variables[i])
             else:
                 # Off-diagonal: create a fixed-zero variable
+                # (a binary Variable forces its bounds to [0, 1], so the fixed zero
+                # of a binary vector is declared integer)
                 row.append(
                     Variable(
                         f"_diag_{vector.name}[{i},{j}]",
                         lb=0.0,
                         ub=0.0,
-                        domain=vector.domain,
+                        domain="integer"
+                        if vector.domain == "binary"
+                        else vector.domain,
                     )
                 )
         variables.append(row)
